@@ -525,6 +525,19 @@ func main() {
 			}
 		case "uu":
 			a, b = randUint(r), randUint(r)
+			if o.name == "umul" && r.Chance(1, 4) {
+				// bit lengths adding up to 255..258: the product straddles the 256-bit bound
+				ka := 64 + r.Intn(129)
+				kb := 255 + r.Intn(4) - ka
+				a = new(big.Int).SetBit(r.Bits(ka), ka-1, 1)
+				b = new(big.Int).SetBit(r.Bits(kb), kb-1, 1)
+				if r.Chance(1, 3) { // exact powers of two: the smallest products for their lengths
+					a, b = pow2(ka-1), pow2(kb-1)
+				} else if r.Chance(1, 3) {
+					a = new(big.Int).Sub(pow2(ka), one)
+					b = new(big.Int).Sub(pow2(kb), one)
+				}
+			}
 		case "u":
 			a = randUint(r)
 		case "raw":
@@ -564,6 +577,15 @@ func main() {
 			}
 		case "d":
 			a = randDec(r)
+			if (o.name == "dround64" || o.name == "dtrunc64") && r.Chance(1, 3) {
+				// around the int64 bound on the integer part, at and beside the rounding tie
+				a = new(big.Int).Mul(new(big.Int).Add(pow2(63), big.NewInt(int64(r.Intn(5)-3))), P)
+				a.Add(a, new(big.Int).Mul(half, big.NewInt(int64(r.Intn(3)))))
+				a.Add(a, big.NewInt(int64(r.Intn(3)-1)))
+				if r.Bool() {
+					a.Neg(a)
+				}
+			}
 		case "di":
 			a, b = randDec(r), randInt(r)
 		}
